@@ -536,6 +536,8 @@ def values_eq(eng, a, b):
     """structural equality as a python bool or z3 Bool"""
     a, b = deref_all(a), deref_all(b)
     if isinstance(a, (Bytes, Vec)) and isinstance(b, (Bytes, Vec)):
+        if a.kind in ('Path', 'PathBuf') or b.kind in ('Path', 'PathBuf'):
+            return path_eq(eng, a.items, b.items)
         if len(a.items) != len(b.items):
             return False
         r = True
@@ -596,6 +598,24 @@ def values_eq(eng, a, b):
     if a is None and b is None:
         return True
     raise Unsupported('equality of %r and %r' % (a, b))
+
+
+def path_eq(eng, x, y):
+    """std::path::Path equality is component-wise"""
+    from .strings import comps
+    cx, cy = comps(eng, tuple(x)), comps(eng, tuple(y))
+    if len(cx) != len(cy):
+        return False
+    r = True
+    for p, q in zip(cx, cy):
+        if p[0] != q[0]:
+            return False
+        if p[0] == 'Normal':
+            if len(p[1]) != len(q[1]):
+                return False
+            for u, v in zip(p[1], q[1]):
+                r = b_and(r, values_eq(eng, u, v))
+    return r
 
 
 @S('PartialEq::eq')
